@@ -9,6 +9,7 @@ import Fx.Lemmas.Local
 import Fx.Lemmas.Fuel
 import Fx.Lemmas.Roundtrip
 import Fx.Lemmas.Selects
+import Fx.Lemmas.Sound
 namespace Fx.C05
 open Fx
 
@@ -79,5 +80,22 @@ theorem C05_no_strict_prefix (a : Ast) (m : Module) (hs : Supported a = true) (h
   injection hc with _ hdata _
   have : t = [] := (List.append_eq_nil_iff.mp hdata).2
   exact ht this
+
+/-- **C05 (nothing above a declared maximum is ever accepted).**  For every supported specification, every declared type and
+    EVERY byte string: if the generated decoder returns `Ok(v)`, then `v` is the documented value of a *well-typed* XDR value `x`
+    — so every opaque, string and array inside it is within the maximum declared for it (literal or named constant, inline or
+    through a typedef: `hasType` checks `withinLimit` at every counted position against the bound the specification declares) and
+    holds exactly as many elements as its count says — and the decoder consumed exactly `|enc x|` bytes.
+    With `C01_roundtrip_supported` (every well-typed value at or below its maxima IS accepted) this is an exact
+    characterisation of what the decoders accept. -/
+theorem C05_accepted_is_well_typed (a : Ast) (m : Module) (hs : Supported a = true) (hg : generateModule a = .ok m)
+    (n : String) (hn : declared a n = true) (fuel : Nat) (c : Cur) (v : Val) (c' : Cur)
+    (h : evalImpl a m.plans fuel n c = .ok v c') :
+    ∃ x, hasTypeNamed a n x = true ∧ v = reprNamed a n c.off x ∧ c'.off = c.off + x.enc.length :=
+  decode_sound hs hg n hn fuel c v c' h
+
+/-- the reference's reading of a bounded position: at most `max` items (here for an opaque; strings and arrays alike) -/
+example (a : Ast) : varHasType a (some 3) .opaque (.varOpaque [1, 2, 3]) = true ∧ varHasType a (some 3) .opaque (.varOpaque [1, 2, 3, 4]) = false := by
+  constructor <;> (rw [varHasType.eq_def]; simp [withinLimit])
 
 end Fx.C05
